@@ -6,6 +6,7 @@ import (
 	"net/url"
 	"os"
 	"path/filepath"
+	"reflect"
 	"sort"
 	"strings"
 
@@ -25,9 +26,9 @@ func init() { Registry["C03"] = c03 }
 
 // routeUnit is one routing file with everything generated from it.
 type routeUnit struct {
-	File    *spec.File
-	Cases   []*corpus.RouteCase
-	Reg     interface {
+	File  *spec.File
+	Cases []*corpus.RouteCase
+	Reg   interface {
 		FindDescriptorByName(protoreflect.FullName) (protoreflect.Descriptor, error)
 	}
 	TSClient string // path of emitted ts client file ("" if plugin failed)
@@ -167,6 +168,77 @@ func lowerFirst(s string) string {
 	return strings.ToLower(s[:1]) + s[1:]
 }
 
+// c03joint: the OpenAPI view of a route must not depend on how many services one plugin invocation
+// describes or on the CPUs the plugin process may use: all routing files go through ONE openapiv3
+// invocation under GOMAXPROCS 2, 3 and 5, and every service's document must be the document its own
+// invocation gave (which the route comparison below judges).
+func c03joint(c *Ctx, units []*routeUnit) {
+	var files []*spec.File
+	seen := map[string]bool{}
+	type own struct {
+		svc string
+		doc *oas.Doc
+	}
+	var owns []own
+	for _, u := range units {
+		dup := false
+		for _, sv := range u.File.Services {
+			dup = dup || seen[sv.Name]
+		}
+		if dup || len(u.Docs) == 0 {
+			continue
+		}
+		for _, sv := range u.File.Services {
+			seen[sv.Name] = true
+			owns = append(owns, own{sv.Name, u.Docs[sv.Name]})
+		}
+		files = append(files, u.File)
+	}
+	if len(files) < 3 {
+		return
+	}
+	req, err := spec.Request(files, nil, "")
+	if err != nil {
+		c.R.Harness("joint routing request: " + err.Error())
+		return
+	}
+	for _, gmp := range []string{"2", "3", "5"} {
+		res := c.TB.Run("openapiv3", req, plugin.RunOpt{Env: []string{"GOMAXPROCS=" + gmp}})
+		c.R.Eval(1)
+		caseBase := "route/joint-openapi-invocation/gomaxprocs=" + gmp
+		if !res.OK() {
+			c.R.Violate(caseBase, "no-documents", res.Crash+res.Error, map[string]any{"services": len(owns), "stderr": firstLines(res.Stderr, 10)})
+			continue
+		}
+		got := map[string]*oas.Doc{}
+		for name, content := range res.Files {
+			svc := strings.TrimSuffix(strings.TrimSuffix(filepath.Base(name), ".openapi.yaml"), ".openapi.json")
+			if d, err := oas.Parse(name, content); err == nil {
+				got[svc] = d
+			}
+		}
+		bad := 0
+		for _, o := range owns {
+			if o.doc == nil {
+				continue
+			}
+			d := got[o.svc]
+			switch {
+			case d == nil:
+				c.R.Violate(caseBase, "document-missing-or-unparsable", "", map[string]any{"service": o.svc, "services_in_invocation": len(owns), "files_emitted": len(res.Files)})
+				bad++
+			case !reflect.DeepEqual(d.Root, o.doc.Root):
+				c.R.Violate(caseBase, "document-differs-from-own-invocation", "", map[string]any{"service": o.svc, "services_in_invocation": len(owns)})
+				bad++
+			}
+		}
+		c.R.Count("joint_openapi_documents_compared", len(owns))
+		if bad == 0 {
+			c.R.Decided(caseBase)
+		}
+	}
+}
+
 // c03: all five generators agree on verb, path template and parameter placement.
 func c03(c *Ctx) {
 	c.R.Rule = "abstract case = RPC of the routing catalogue: base_path class x method-config class x verb x path shape x method-name shape (x go package name = / != proto package tail); " +
@@ -188,6 +260,7 @@ func c03(c *Ctx) {
 		c.R.Harness(err.Error())
 		return
 	}
+	c03joint(c, units)
 	if un := l.CompileAll(false); un != "" {
 		c.R.Harness("unattributed build output: " + firstLines(un, 10))
 		return
@@ -401,7 +474,10 @@ func c03unit(c *Ctx, u *routeUnit, ch, node *lab.Child) {
 			}
 		}
 		// (2) TS client request line (record-only fetch)
-		var tsLine struct{ Method, URI string; Body []byte }
+		var tsLine struct {
+			Method, URI string
+			Body        []byte
+		}
 		if node != nil && u.TSClient != "" {
 			tree, _ := enc.Message(req)
 			ret, err := callTS(node, u.TSClient, svcSimple+"Client", "http://ts.invalid", lowerFirst(rc.Method), jsonmap.Resolve(tree), map[string]any{"inject": map[string]any{"status": 200, "body": "{}"}})
